@@ -149,6 +149,10 @@ func (clnt *Clnt) recv() {
 		}
 
 		n, oerr := clnt.conn.Read(buf[pos:])
+		if oerr == nil && n == 0 {
+			oerr = &Error{"connection closed", EIO}
+		}
+
 		if oerr != nil || n == 0 {
 			err = &Error{oerr.Error(), EIO}
 			clnt.Lock()
@@ -160,6 +164,15 @@ func (clnt *Clnt) recv() {
 		pos += n
 		for pos > 4 {
 			sz, _ := Gint32(buf)
+			if sz > atomic.LoadUint32(&clnt.Msize) {
+				/* larger than anything the server may send: never buffer it */
+				clnt.Lock()
+				clnt.err = &Error{"response larger than msize", EINVAL}
+				_ = clnt.conn.Close()
+				clnt.Unlock()
+				goto closed
+			}
+
 			if pos < int(sz) {
 				if len(buf) < int(sz) {
 					b := make([]byte, atomic.LoadUint32(&clnt.Msize)*8)
